@@ -1,6 +1,7 @@
 import MlModel.Lemmas.AggHistory
 import MlModel.Lemmas.AggMergeLaws
 import MlModel.Properties.C01.History
+import MlModel.Lemmas.AggHeapObs
 /-!
 # C11 — "reading a result is repeatable and does not disturb subsequent updates", for every history
 
@@ -69,6 +70,25 @@ theorem C11_history_read_repeatable (hl : LawfulU m.toMergeable Eqv) (hr : ReadL
 theorem C11_history_pure_read_laws (m : Mergeable X S R) {Eqv : S → S → Prop} (hl : LawfulU m Eqv) :
     ReadLaws m.pureRead Eqv :=
   m.pureRead_laws Eqv hl.refl
+
+/-! ## the heap models: `result()` writes nothing, for EVERY class obeying `HLawsR`
+
+`Lemmas/AggHeapObs.lean` proves the frame for all operations but states the `result` case per
+instance (ThrHeap, CmStateHeap, HistHeap).  Generic form: in every population reachable by any
+interleaving of make / add / merge / result / poke, a `result()` on ANY accumulator leaves EVERY
+accumulator — the one that is read included — with the same record and the same content in every
+cell it references (it may only allocate).  This is the heap-level `read_eqv`.  (That the methods'
+later behaviour depends on nothing but the record and those cells is the locality of the model's
+method definitions; it is not part of `HLawsR` and is not claimed here.) -/
+
+open MlModel.Agg.Heap in
+theorem C11_history_heap_result_writes_nothing {C B : Type} [Inhabited C] {cls : HClassR C B}
+    (laws : HLawsR cls) (ops : List (OpR B C)) (i j : Nat) (oj : cls.Obj)
+    (hj : ((SysR.init cls).run ops).objs[j]? = some oj) :
+    (((SysR.init cls).run ops).step (.result i)).objs[j]? = some oj ∧
+      ∀ r ∈ (cls.fp oj).refs,
+        (((SysR.init cls).run ops).step (.result i)).heap.read r = ((SysR.init cls).run ops).heap.read r :=
+  frameR_step laws (InvR.run laws ops) (.result i) j oj hj (by simp [OpR.receiver])
 
 /-! ## non-vacuity (tests): `LawfulU` + `ReadLaws` hold for a shipped model, and a concrete history -/
 
